@@ -87,13 +87,12 @@ Definition ledger_ok (l : ledger) (minors : list nat) (per : res) (m : nat) : Pr
   exists f, dget (free l) m = Some f /\ rle per (view_free l m f) = true /\
             ris_zero (ores (dget (total l) m)) = false.
 
-Section OneType.
-  Variable ls : list ledger.
-  Variable infos : list devinfo.
-  Variable t : nat.
-  Let l := ledger_of ls t.
-  Let minors := minors_of infos t.
-  Hypothesis G : lgood l.
+Section OneLedger.
+  Variable l : ledger.
+  Variable minors : list nat.
+  Hypothesis FS : free_struct l.
+  Hypothesis Ht : dnonneg (total l).
+  Hypothesis Hu : dnonneg (used l).
 
   Lemma view_ok_ledger per m : view_ok (filter_view l minors) per m -> ledger_ok l minors per m.
   Proof.
@@ -105,8 +104,8 @@ Section OneType.
     destruct (memn m minors) eqn:Mm; [|discriminate]. injection Ef as <-.
     split; [now apply memn_In|]. exists f. split; auto. split; auto.
     assert (Zf : ris_zero f = false).
-    { rewrite <- (view_free_is_zero l (lg_fs _ G) (lg_tot _ G) (lgood_used_nonneg _ G) m f Efl). exact Z. }
-    exact (free_nonzero_total l (lg_fs _ G) (lg_tot _ G) (lgood_used_nonneg _ G) m f Efl Zf).
+    { rewrite <- (view_free_is_zero l FS Ht Hu m f Efl). exact Z. }
+    exact (free_nonzero_total l FS Ht Hu m f Efl Zf).
   Qed.
 
   Lemma eligible_view per m : eligible_minor l minors per m = true ->
@@ -128,8 +127,8 @@ Section OneType.
   Proof.
     intros H. destruct (eligible_view per m H) as [Hne [f [Ef [Z [R Mm]]]]].
     exists (view_free l m f). rewrite view_free_entry, Ef, Mm by auto. split; auto. split.
-    - rewrite (view_free_is_zero l (lg_fs _ G) (lg_tot _ G) (lgood_used_nonneg _ G) m f Ef). exact Z.
-    - exact (view_free_rle_mono l (lg_fs _ G) (lg_tot _ G) (lgood_used_nonneg _ G) m f Ef per R).
+    - rewrite (view_free_is_zero l FS Ht Hu m f Ef). exact Z.
+    - exact (view_free_rle_mono l FS Ht Hu m f Ef per R).
   Qed.
 
   Definition elig_list per : list nat :=
@@ -137,33 +136,40 @@ Section OneType.
   Lemma elig_list_nodup per : NoDup (elig_list per).
   Proof. apply NoDup_filter, seq_NoDup. Qed.
 
-  (* topology context of this type's allocation *)
-  Variable per : res.
-  Variable count : Z.
-  Variable shared scored : bool.
-  Let v := filter_view l minors.
-  Let c := mkCtx (desired_count count) shared scored per v (build_total infos 0) (real_used (used l) v).
+  (* any topology context looking at this ledger's view *)
+  Variable c : topo_ctx.
+  Hypothesis Hcv : tc_view c = filter_view l minors.
 
-  Lemma topo_sat_ledger m : topo_sat c m = true -> In m minors -> ledger_ok l minors per m.
+  Lemma topo_sat_ledger m : topo_sat c m = true -> In m minors -> ledger_ok l minors (tc_req c) m.
   Proof.
-    unfold topo_sat. cbn [tc_req tc_view c]. intros H Hin. apply andb_prop in H as [R Tz].
+    unfold topo_sat. rewrite Hcv. intros H Hin. apply andb_prop in H as [R Tz].
     destruct (dis_zero (free l) || match minors with [] => true | _ => false end) eqn:Hne.
-    { unfold v in Tz. rewrite filter_view_empty in Tz by auto. cbn [total empty_ledger] in Tz. rewrite dget_nil in Tz. discriminate. }
-    unfold v in *. rewrite view_total in Tz by auto. rewrite view_free_entry in R by auto.
+    { rewrite filter_view_empty in Tz by auto. cbn [total empty_ledger] in Tz. rewrite dget_nil in Tz. discriminate. }
+    rewrite view_total in Tz by auto. rewrite view_free_entry in R by auto.
     destruct (dget (free l) m) as [f|] eqn:Ef; [|discriminate].
     destruct (memn m minors) eqn:Mm; [|discriminate]. cbn [ores] in R.
     split; auto. exists f. split; auto. split; auto. now apply negb_true_iff in Tz.
   Qed.
-  Lemma eligible_topo_sat m : eligible_minor l minors per m = true -> topo_sat c m = true.
+  Lemma eligible_topo_sat m : eligible_minor l minors (tc_req c) m = true -> topo_sat c m = true.
   Proof.
-    intros H. destruct (eligible_view per m H) as [Hne [f [Ef [Z [R Mm]]]]].
-    unfold topo_sat. cbn [tc_req tc_view c]. unfold v.
+    intros H. destruct (eligible_view (tc_req c) m H) as [Hne [f [Ef [Z [R Mm]]]]].
+    unfold topo_sat. rewrite Hcv.
     rewrite view_total, view_free_entry, Ef, Mm by auto. cbn [ores]. apply andb_true_intro. split.
-    - exact (view_free_rle_mono l (lg_fs _ G) (lg_tot _ G) (lgood_used_nonneg _ G) m f Ef per R).
-    - apply negb_true_iff.
-      exact (free_nonzero_total l (lg_fs _ G) (lg_tot _ G) (lgood_used_nonneg _ G) m f Ef Z).
+    - exact (view_free_rle_mono l FS Ht Hu m f Ef (tc_req c) R).
+    - apply negb_true_iff. exact (free_nonzero_total l FS Ht Hu m f Ef Z).
   Qed.
-End OneType.
+
+  Lemma view_free_val_nonneg m k : 0 <= rval (ores (dget (free (filter_view l minors)) m)) k.
+  Proof.
+    destruct (dis_zero (free l) || match minors with [] => true | _ => false end) eqn:Hne.
+    { rewrite filter_view_empty by auto. cbn [free empty_ledger]. rewrite dget_nil. cbn [ores].
+      rewrite rval_rempty. lia. }
+    rewrite view_free_entry by auto. destruct (dget (free l) m) as [f|] eqn:Ef.
+    - destruct (memn m minors); cbn [ores]; [|rewrite rval_rempty; lia].
+      exact (view_free_nonneg l FS Ht Hu m f Ef k).
+    - cbn [ores]. rewrite rval_rempty. lia.
+  Qed.
+End OneLedger.
 
 (* ------------------------------------------------------------------ scores are not negative *)
 Lemma slot_score_nonneg req tot fr k x : 0 <= rval tot k -> slot_score req tot fr k = Some x -> 0 <= x.
@@ -185,38 +191,29 @@ Proof.
   eapply slot_score_nonneg; eauto.
 Qed.
 
-Section OneTypeAlloc.
-  Variable ls : list ledger.
+Section CoreAlloc.
   Variable infos : list devinfo.
   Variable t : nat.
-  Let l := ledger_of ls t.
+  Variable orig_used : devres.
+  Variable l : ledger.
   Let minors := minors_of infos t.
-  Hypothesis G : lgood l.
+  Hypothesis FS : free_struct l.
+  Hypothesis Ht : dnonneg (total l).
+  Hypothesis Hu : dnonneg (used l).
   Variable per : res.
   Variable count : Z.
   Variable shared scored : bool.
   Hypothesis Hcount : 1 <= count.
 
-  Lemma view_free_val_nonneg m k : 0 <= rval (ores (dget (free (filter_view l minors)) m)) k.
-  Proof.
-    destruct (dis_zero (free l) || match minors with [] => true | _ => false end) eqn:Hne.
-    { rewrite filter_view_empty by auto. cbn [free empty_ledger]. rewrite dget_nil. cbn [ores].
-      rewrite rval_rempty. lia. }
-    rewrite view_free_entry by auto. destruct (dget (free l) m) as [f|] eqn:Ef.
-    - destruct (memn m minors); cbn [ores]; [|rewrite rval_rempty; lia].
-      exact (view_free_nonneg l (lg_fs _ G) (lg_tot _ G) (lgood_used_nonneg _ G) m f Ef k).
-    - cbn [ores]. rewrite rval_rempty. lia.
-  Qed.
-
-  Lemma alloc_type_sound al :
-    alloc_type scored ls infos t per count shared = Some al ->
+  Lemma alloc_core_sound al :
+    alloc_core scored infos t orig_used l per count shared = Some al ->
     length al = desired_count count /\ NoDup (map fst al) /\
     forall a, In a al -> snd a = per /\ ledger_ok l minors per (fst a).
   Proof.
-    unfold alloc_type. fold l. fold minors.
+    unfold alloc_core. fold minors.
     destruct (Nat.eqb t 0 && gpu_topo_ok infos && negb (shared && (1 <? count))) eqn:Br.
     - set (c := mkCtx (desired_count count) shared scored per (filter_view l minors)
-                      (build_total infos 0) (real_used (used l) (filter_view l minors))).
+                      (build_total infos 0) (real_used orig_used (filter_view l minors))).
       destruct (root_alloc c (root_minors infos) (numa_scopes infos)) as [r|] eqn:R; [|discriminate].
       intros H. injection H as <-.
       apply andb_prop in Br as [Br Bs]. apply andb_prop in Br as [Bt _].
@@ -225,7 +222,7 @@ Section OneTypeAlloc.
       { eapply root_alloc_ok; [| | | |exact R].
         - intros m. unfold topo_score. cbn [tc_shared tc_scored tc_req tc_view tc_scope_total c].
           destruct (shared && scored); [|lia].
-          apply score_device_nonneg. intros k. apply view_free_val_nonneg.
+          apply score_device_nonneg. intros k. now apply view_free_val_nonneg.
         - apply root_minors_spec.
         - intros m Hm. unfold minors. rewrite Bt. now apply root_minors_spec.
         - intros sc Hsc. unfold minors. rewrite Bt. now apply numa_scopes_spec. }
@@ -235,21 +232,22 @@ Section OneTypeAlloc.
         apply negb_true_iff in Bs. cbn [andb] in Bs. symmetry. now apply desired_count_one.
       + rewrite map_map. cbn [fst]. now rewrite map_id.
       + intros a Ha. apply in_map_iff in Ha as [m [<- Hm]]. cbn [fst snd]. split; auto.
-        destruct (Hall m Hm) as [Hin Hs]. eapply topo_sat_ledger; eauto.
+        destruct (Hall m Hm) as [Hin Hs].
+        apply (topo_sat_ledger l minors c eq_refl m Hs Hin).
     - intros H. apply default_allocate_sound in H as [Len [ND Hall]].
       split; auto. split; auto. intros a Ha. destruct (Hall a Ha) as [E V]. split; auto.
       now apply view_ok_ledger.
   Qed.
 
-  Lemma alloc_type_complete :
-    alloc_type scored ls infos t per count shared = None ->
+  Lemma alloc_core_complete :
+    alloc_core scored infos t orig_used l per count shared = None ->
     (eligible_count l minors per < desired_count count)%nat.
   Proof.
-    unfold alloc_type. fold l. fold minors. unfold eligible_count.
-    fold (elig_list ls infos t per).
+    unfold alloc_core. fold minors. unfold eligible_count.
+    fold (elig_list l minors per).
     destruct (Nat.eqb t 0 && gpu_topo_ok infos && negb (shared && (1 <? count))) eqn:Br.
     - set (c := mkCtx (desired_count count) shared scored per (filter_view l minors)
-                      (build_total infos 0) (real_used (used l) (filter_view l minors))).
+                      (build_total infos 0) (real_used orig_used (filter_view l minors))).
       destruct (root_alloc c (root_minors infos) (numa_scopes infos)) as [r|] eqn:R; [discriminate|].
       intros _. apply andb_prop in Br as [Br Bs]. apply andb_prop in Br as [Bt _].
       apply Nat.eqb_eq in Bt.
@@ -259,13 +257,31 @@ Section OneTypeAlloc.
         now apply desired_count_one.
       + intros m Hm. unfold elig_list in Hm. apply filter_In in Hm as [_ Hm]. split.
         * apply root_minors_spec. rewrite <- Bt. fold minors.
-          destruct (eligible_view ls infos t per m Hm) as [_ [f [_ [_ [_ Mm]]]]]. now apply memn_In.
-        * now apply eligible_topo_sat.
+          destruct (eligible_view l minors per m Hm) as [_ [f [_ [_ [_ Mm]]]]]. now apply memn_In.
+        * apply (eligible_topo_sat l minors FS Ht Hu c eq_refl m Hm).
     - intros H. eapply default_allocate_complete; [exact H|apply elig_list_nodup|].
       intros m Hm. unfold elig_list in Hm. apply filter_In in Hm as [_ Hm].
       now apply eligible_view_ok.
   Qed.
-End OneTypeAlloc.
+End CoreAlloc.
+
+Lemma alloc_type_sound ls infos t per count shared scored al :
+  lgood (ledger_of ls t) -> 1 <= count ->
+  alloc_type scored ls infos t per count shared = Some al ->
+  length al = desired_count count /\ NoDup (map fst al) /\
+  forall a, In a al -> snd a = per /\ ledger_ok (ledger_of ls t) (minors_of infos t) per (fst a).
+Proof.
+  intros G Hc. unfold alloc_type.
+  apply alloc_core_sound; auto; [apply G|apply G|now apply lgood_used_nonneg].
+Qed.
+Lemma alloc_type_complete ls infos t per count shared scored :
+  lgood (ledger_of ls t) -> 1 <= count ->
+  alloc_type scored ls infos t per count shared = None ->
+  (eligible_count (ledger_of ls t) (minors_of infos t) per < desired_count count)%nat.
+Proof.
+  intros G Hc. unfold alloc_type.
+  apply alloc_core_complete; auto; [apply G|apply G|now apply lgood_used_nonneg].
+Qed.
 
 (* ------------------------------------------------------------------ fillGPUTotalMem *)
 Definition filled (tot : devres) (a a' : alloc) : Prop :=
@@ -452,4 +468,14 @@ Proof.
   apply orb_false_iff in I as [I0 I]. apply orb_false_iff in I as [I1 I]. apply orb_false_iff in I as [I2 _].
   apply orb_false_iff in Q as [Q0 Q]. apply orb_false_iff in Q as [Q1 Q]. apply orb_false_iff in Q as [Q2 _].
   now rewrite I0, I1, I2, Q0, Q1, Q2.
+Qed.
+
+(* the code of a refusal is one of the three failure codes (never the success code) *)
+Lemma allocate_fail_codes ls infos rq code :
+  allocate ls infos rq = AFail code -> code = c_unresolvable \/ (code = c_unsched \/ code = c_error).
+Proof.
+  rewrite allocate_unfold.
+  repeat match goal with |- context [if ?b then _ else _] => destruct b end;
+    try discriminate; try (intros H; injection H as <-; auto).
+  destruct (fill_all _ _); [discriminate|]. intros H; injection H as <-; auto.
 Qed.
